@@ -366,7 +366,7 @@ func run(r *core.Run) int {
 		}
 	}
 	results := make([][]sims.CanonCert, len(cases))
-	core.Parallel(len(cases), func(i int) {
+	r.Parallel(len(cases), func(i int) {
 		c := cases[i]
 		out := execute(c)
 		results[i] = judge(r, c, out)
